@@ -141,6 +141,133 @@ theorem stale_only_on_failure (cfg : Config) (st : State) (name : String) (up : 
         exact ⟨rfl, by simpa using hexp, by simpa using hnd⟩
       · cases h
 
+
+/-! ### Fallback order -/
+/-- the UDP receive loop only ever reports "done" when both families are done, and while it runs
+the builder is not done: every other way of leaving it (timeout/silence, truncation, unusable
+response) leaves the lookup unfinished. -/
+theorem udp_unfinished_unless_done (dl : Nat) (evs : List UdpEv) (o : UdpOut) (h0 : o.b.isDone = false)
+    (hs : (udpLoop dl o evs).why ≠ .done) : (udpLoop dl o evs).b.isDone = false := by
+  induction evs generalizing o with
+  | nil => simpa [udpLoop] using h0
+  | cons ev rest ih =>
+    cases ev with
+    | silence => simpa [udpLoop] using h0
+    | readErr dt =>
+      unfold udpLoop at hs ⊢
+      split
+      · exact h0
+      · rename_i hh; simp only [hh, if_false] at hs; exact ih _ h0 hs
+    | dgram dt fs w =>
+      unfold udpLoop at hs ⊢
+      split
+      · exact h0
+      · rename_i hh
+        simp only [hh, if_false] at hs
+        dsimp only at hs ⊢
+        cases fs with
+        | false =>
+          simp only [Bool.not_false, if_true] at hs ⊢
+          exact ih _ h0 hs
+        | true =>
+          simp only [Bool.not_true, Bool.false_eq_true, if_false] at hs ⊢
+          cases hp : parseMsg o.b (o.now + dt) w true with
+          | mk b' r =>
+            simp only [hp] at hs ⊢
+            cases r with
+            | none =>
+              dsimp only
+              have := parseMsg_err_done o.b (o.now + dt) w true (by rw [hp])
+              rw [hp] at this
+              have h1 : b'.v4done = o.b.v4done := this.1
+              have h2 : b'.v6done = o.b.v6done := this.2
+              simp only [Builder.isDone, h1, h2] at h0 ⊢
+              exact h0
+            | some h =>
+              dsimp only at hs ⊢
+              by_cases htc : h.tc = true
+              · simp only [htc, if_true] at hs ⊢
+                have := parseMsg_tc_udp o.b b' (o.now + dt) w h hp htc
+                simp only [Builder.isDone, this.1, this.2] at h0 ⊢
+                exact h0
+              · simp only [htc, Bool.false_eq_true, if_false] at hs ⊢
+                by_cases hd : b'.isDone = true
+                · simp [hd] at hs
+                · simp only [hd, Bool.false_eq_true, if_false] at hs ⊢
+                  exact ih _ (by simpa using hd) hs
+
+
+/-- **fallback_order.** (1) UDP is tried first when configured; unless its receive loop ended because
+both families were answered — i.e. whenever it ended by timeout/silence (unanswered), by a truncated
+response, or by an unusable response — the lookup is unfinished after UDP. (2) TCP is consulted exactly
+when a TCP client is configured and the lookup is unfinished after the UDP phase (or there was none).
+(3) The lookup fails (stale entry or error; see `stale_only_on_failure`) exactly when the builder is not
+done after both phases — that is the definition of `lookup` and is used by `stale_only_on_failure`. -/
+theorem fallback_order (cfg : Config) (now : Nat) (up : Upstream) :
+    ((sendQueriesUDP {} now up.udp).why ≠ .done → (sendQueriesUDP {} now up.udp).b.isDone = false) ∧
+    (sendQueries cfg now up).tcpTried =
+      (cfg.hasTCP && !(if cfg.hasUDP then (sendQueriesUDP {} now up.udp).b.isDone else false)) := by
+  refine ⟨fun h => udp_unfinished_unless_done _ up.udp { b := {}, now := now } rfl h, ?_⟩
+  unfold sendQueries
+  dsimp only
+  cases cfg.hasUDP <;> cases cfg.hasTCP <;> simp [Builder.isDone]
+  all_goals (cases (sendQueriesUDP {} now up.udp).b.v4done <;> cases (sendQueriesUDP {} now up.udp).b.v6done <;> simp)
+
+/-! ### Malformed responses -/
+
+
+/-- **malformed_no_poison** (1): if every message upstream sends for this lookup is one `parseMsg`
+rejects (garbage, wrong id, not a response, RA=0, unknown rcode, malformed at any stage), the
+lookup does not complete, whatever the order, transport and timing. -/
+theorem malformed_never_completes (cfg : Config) (now : Nat) (up : Upstream)
+    (hbad : ∀ w, FromUpstream up w → Bad w) : (sendQueries cfg now up).b.isDone = false := by
+  obtain ⟨tr, h1, h2⟩ := sendQueries_trace cfg now up
+  have := feed_bad_done tr {} (fun e he => hbad e.2.1 (h2 e he))
+  rw [h1]
+  simp only [Builder.isDone, this.1, this.2]
+  rfl
+
+/-- **malformed_no_poison** (2): a lookup that does not end with a fresh upstream result (cache hit,
+stale answer, failure) leaves every binding of the cache as it was — only the recency order moves. -/
+theorem no_poison (cfg : Config) (st : State) (name : String) (up : Upstream)
+    (hnf : ∀ r, (lookup cfg st name up).out ≠ .fresh r) (k : String) :
+    Spec.find (lookup cfg st name up).st.cache k = Spec.find st.cache k := by
+  have hfg := find_get st.cache name k
+  unfold lookup at hnf ⊢
+  dsimp only at hnf ⊢
+  split
+  · split
+    · exact hfg
+    · split
+      · exact hfg
+      · rename_i h1 h2 h3
+        exfalso
+        simp only [h1, h2, h3, if_false] at hnf
+        exact hnf _ rfl
+  · split
+    · exact hfg
+    · rename_i h1 h3
+      exfalso
+      simp only [h1, h3, if_false] at hnf
+      exact hnf _ rfl
+
+
+/-- **answers_only_partial.** What is proved: the result builder of a lookup is a function of the
+messages that really came from upstream only — datagrams whose source is the configured server and
+frames of the lookup's own TCP connections (`Sourced (FromUpstream up)`); datagrams from other
+sources never reach `parseMsg` (see `expiry_le_every_ttl` for the same trace), messages with a
+foreign id are rejected by `idCheck` before any effect, and rejected messages never complete a family
+(`parseMsg_err_done`). Missing for the full `answers_only`: the explicit statement that every address
+of the result is the address of an A/AAAA record in the answer section of one of those messages with
+id 4 or 6 (a fold lemma over `applyAns`; checked on every run by the oracle keys `foreign-address`,
+`answers-not-returned`). -/
+theorem answers_only_partial (cfg : Config) (now : Nat) (up : Upstream) :
+    (∃ tr, (sendQueries cfg now up).b = feed {} tr ∧ Sourced (FromUpstream up) tr) ∧
+    (∀ b t m u, m.id ≠ idV4 → m.id ≠ idV6 → parseMsg b t (.msg m) u = (b, none)) := by
+  refine ⟨sendQueries_trace cfg now up, ?_⟩
+  intro b t m u h4 h6
+  simp [parseMsg, idCheck, h4, h6]
+
 end SSV.C17
 
 #print axioms SSV.C17.lru_refines_map
@@ -149,3 +276,8 @@ end SSV.C17
 #print axioms SSV.C17.fresh_is_builder
 #print axioms SSV.C17.no_reuse_after_expiry
 #print axioms SSV.C17.stale_only_on_failure
+#print axioms SSV.C17.udp_unfinished_unless_done
+#print axioms SSV.C17.fallback_order
+#print axioms SSV.C17.malformed_never_completes
+#print axioms SSV.C17.no_poison
+#print axioms SSV.C17.answers_only_partial
